@@ -209,8 +209,8 @@ pub struct OpGen<'a> {
     pub s: &'a State,
     pub hot: Vec<u32>,
     pub in_use: Vec<u32>,
-    /// 3D: pairs of darts whose faces can be 3-sewn
-    pub mirror: Vec<(u32, u32)>,
+    /// 3D: pairs of darts whose faces can be 3-sewn (computed on first use)
+    pub mirror: std::cell::OnceCell<Vec<(u32, u32)>>,
     /// probability that a topology edit is chosen valid on the model state
     pub p_valid: f64,
 }
@@ -242,8 +242,7 @@ impl<'a> OpGen<'a> {
                 push(&mut hot, d);
             }
         }
-        let mirror = crate::gen3::mirror_pairs(s);
-        OpGen { s, hot, in_use, mirror, p_valid: 0.6 }
+        OpGen { s, hot, in_use, mirror: std::cell::OnceCell::new(), p_valid: 0.6 }
     }
 
     pub fn dart(&self, rng: &mut Rng) -> u32 {
@@ -270,8 +269,8 @@ impl<'a> OpGen<'a> {
         let valid = rng.chance(self.p_valid);
         let sew = rng.chance(0.6);
         match rng.below(2) {
-            0 if i == 3 && valid && !self.mirror.is_empty() => {
-                let (l, r) = *rng.pick(&self.mirror);
+            0 if i == 3 && valid && !self.mirror.get_or_init(|| crate::gen3::mirror_pairs(s)).is_empty() => {
+                let (l, r) = *rng.pick(self.mirror.get().unwrap());
                 if sew { Op::Sew { i, l, r } } else { Op::Link { i, l, r } }
             }
             0 => {
